@@ -1286,6 +1286,43 @@ fn out_of_support_symbol(rng: &mut Rng, b: &Built) -> i64 {
     }
 }
 
+/// C12 workload: one-step look-ahead on the public state that picks, among a few candidate
+/// symbols, the one whose encoding wastes most bits relative to its information content.
+fn greedy_c12_ops<C: Ws>(rng: &mut Rng, built: &[Built], n: usize) -> Vec<AnsOp> {
+    let mut ops = Vec::with_capacity(n);
+    let mut state: C::S = num_traits::Zero::zero();
+    for _ in 0..n {
+        let m = rng.usize(built.len());
+        let b = &built[m];
+        if !b.can_encode() {
+            continue;
+        }
+        let mut best: Option<(f64, i64, C::S)> = None;
+        for _ in 0..12 {
+            let sym = pick_symbol(rng, b);
+            let Some((_, prob)) = b.lcp64(sym) else { continue };
+            let mut c = AnsCoder::<C::W, C::S, Vec<C::W>>::from_raw_parts(Vec::new(), state);
+            if <C::W as WordOps>::enc(&mut c, b, sym) != EncRes::Ok {
+                continue;
+            }
+            let (bulk, st) = c.into_raw_parts();
+            let x = s_to(st);
+            let bits = (bulk.len() as u32 * C::WB) as f64 + if x == 0 { 0.0 } else { (x as f64).log2() };
+            let info = b.p as f64 - (prob as f64).log2();
+            let waste = bits - info;
+            if best.as_ref().map_or(true, |(w, _, _)| waste > *w) {
+                best = Some((waste, sym, st));
+            }
+        }
+        if let Some((_, sym, st)) = best {
+            // keep only the head: the look-ahead needs nothing else
+            state = st;
+            ops.push(AnsOp::Enc { sym, m });
+        }
+    }
+    ops
+}
+
 pub fn generate(seed: u64, prop: &str, thorough: bool) -> AnsTrace {
     let mut root = Rng::new(seed);
     let mut rng = root.fork("workload");
@@ -1331,6 +1368,11 @@ pub fn generate(seed: u64, prop: &str, thorough: bool) -> AnsTrace {
     let mut shadow: Vec<(i64, usize)> = Vec::new();
     let mut n_snaps = 0usize;
 
+    if prop == "C12" && bias.chance(1, 2) {
+        let n = if thorough && bias.chance(1, 10) { 20_000 } else { n_ops.max(200).min(2000) };
+        let ops = crate::for_cfg!(cfg, |C| greedy_c12_ops::<C>(&mut rng, &built, n));
+        return AnsTrace { cfg, backend, init, models, ops };
+    }
     if prop == "C04" {
         // bits-back shape: decode k, (reload / inspect sprinkled in), encode back in reverse
         let k = rng.len(6, 60);
